@@ -1075,7 +1075,10 @@ class C15(Prop):
         note = "fewer than two distinct finite values"
         if clean.size >= 1 and clean.size <= LIMIT and case.get("dtype") != "int":
             t = run_otsu(x, remove_nan=True)
-            hist, edges = np.histogram(clean, bins=BINS)
+            try:
+                hist, edges = np.histogram(clean, bins=BINS)
+            except ValueError:      # a single value so large that 256 bins of total width 1 fall below the float spacing
+                return outcome({}, {}, {}, hyp=False, features=feats, note=note)
             rep = ctx.driver.call("c15.hist", hist=[int(v) for v in hist], edges=[core.rat(float(v)) for v in edges])
             mt = float(unrat(rep["threshold"]))
             agrees = (not isinstance(t, dict)) and t == mt and rep["first_nan"] == rep["index"]
